@@ -92,6 +92,9 @@ def generate(seed, tier):
             if rng.random() < 0.08:
                 ident = "x"
             table.append([ident, rng.choice(letters)])
+        if rng.random() < 0.1:
+            # a file that starts with a line of column names although the CID declares no header: a rejected row
+            table.insert(0, ["id", "name"][:2] if spec["format"] == "delimited" else ["i", "na"])
         datasets[name] = table
     names = sorted(datasets)
     max_ops = 4 if tier == "quick" else 8
